@@ -80,6 +80,7 @@ EXOTIC_NAMES = ['db.Layer', 'db_Layer', 'dbxLayer', 'C++', 'DB(sqlite)',
                 'a|b', 'x*', '[old]', 'Lay$', '^top', 'q?', 'a\\b', 'b.',
                 'A.b', 'A-b', '{2}']
 P_EXOTIC = 0.1
+P_FALSY = 0.12
 
 
 def exoticise(rng, specs, p=None):
@@ -137,6 +138,9 @@ def random_layer_graph(rng, nmax=6, nmin=1, p_edge=0.4, p_inst=0.35,
         specs.append({'name': names[i], 'kind': kind,
                       'bases': [specs[b]['name'] for b in bases],
                       'hooks': hooks})
+        if kind == 'inst' and rng.random() < P_FALSY:
+            # a layer object that is false (an empty container)
+            specs[-1]['falsy'] = True
     exoticise(rng, specs, p_exotic)
     return specs
 
